@@ -938,6 +938,12 @@ class Verifier:
                 except Unsupported as u:
                     self.errors.append("unsupported: %s" % u)
                     break
+                except TypeError as u:
+                    if "cannot encode VNaN" not in str(u):
+                        raise
+                    # nan flowing into a real-valued container / parameter: outside the float model (A-REAL): undecided
+                    self.errors.append("unsupported: %s (nan has no encoding in the real-valued float sort)" % u)
+                    break
                 except RecursionError:
                     self.errors.append("recursion limit")
                     break
